@@ -126,6 +126,59 @@ Proof.
   - cbn [gsc_eval]. now rewrite (sum_over_all_demes c _ (fun d => nth (d_lvl d) ws 0 * d_evals d) L).
 Qed.
 
+(* ---------------------------------------------------------------- FitnessEvalLimitReached: the weights the sum is taken with *)
+Lemma map_const_seq (k a m : nat) : map (fun _ => k) (seq a m) = repeat k m.
+Proof. revert a. induction m as [|m IH]; intros a; [reflexivity|]. cbn [seq map repeat]. now rewrite IH. Qed.
+Lemma repeat_app_one (k m : nat) : repeat k m ++ [k] = k :: repeat k m.
+Proof. induction m as [|m IH]; [reflexivity|]. cbn [repeat app]. now rewrite IH. Qed.
+Theorem weights_nlevels_ok c : gen_weights_nlevels c = height c.
+Proof. unfold gen_weights_nlevels. rewrite ?seq_length. reflexivity || lia. Qed.
+(* _transform_weights under the guard of __call__: None / "equal" become all-ones, "root" counts the root level only (IndexError for a tree of no
+   levels), an explicit list is left alone, any other string is left alone too (the sum then raises: None) *)
+Theorem effective_weights_ok c w : w_as_list (gen_effective_weights c w) = weights_of (height c) w.
+Proof.
+  unfold gen_effective_weights. rewrite weights_nlevels_ok. generalize (height c) as n. intros n.
+  unfold gen_weights_guard, gen_transform_weights.
+  destruct w as [| | | |l]; cbn [w_is_none w_is_str w_is_list w_eq_equal w_eq_root orb andb negb w_as_list weights_of];
+    try reflexivity;
+    destruct n as [|m]; cbn [seq map repeat app w_setitem list_set w_as_list weights_of]; rewrite ?map_const_seq, ?repeat_app_one; reflexivity.
+Qed.
+(* the normalisation happens once: what it leaves is a list, and a list is never touched again *)
+Theorem effective_weights_idem c c' w ws : w_as_list (gen_effective_weights c w) = Some ws ->
+  gen_effective_weights c' (WList ws) = Some (WList ws).
+Proof.
+  intros _. unfold gen_effective_weights, gen_weights_guard.
+  cbn [w_is_none w_is_str w_is_list w_eq_equal w_eq_root orb andb negb]. reflexivity.
+Qed.
+Theorem FitnessEvalLimitReached_spec_ok c fuel limit w ws s : levels_ok c (demes (ms s)) ->
+  w_as_list (gen_effective_weights c w) = Some ws ->
+  exists b, answers (gen_FitnessEvalLimitReached c fuel limit ws) s b /\
+            gsc_eval (GEvalLimit limit (weights_or_nil (height c) w)) (height c) (ms s) = Some b.
+Proof.
+  intros L E. rewrite effective_weights_ok in E. unfold weights_or_nil. rewrite E. now apply FitnessEvalLimitReached_ok.
+Qed.
+(* "equal" (and None) is SingularProblemEvalLimitReached; "root" counts the root's evaluations only *)
+Lemma nth_repeat_lt (k i n : nat) : i < n -> nth i (repeat k n) 0 = k.
+Proof. revert i. induction n as [|n IH]; intros i H; [lia|]. destruct i as [|i]; cbn [repeat nth]; [reflexivity|]. apply IH. lia. Qed.
+Lemma nth_repeat_zero (i n : nat) : nth i (repeat 0 n) 0 = 0.
+Proof. revert i. induction n as [|n IH]; intros [|i]; cbn [repeat nth]; auto. Qed.
+Theorem equal_weights_total c limit w s : levels_ok c (demes (ms s)) -> w = WEqual \/ w = WNone ->
+  gsc_eval (GEvalLimit limit (weights_or_nil (height c) w)) (height c) (ms s) = Some (limit <=? total_evals (demes (ms s))).
+Proof.
+  intros L W. cbn [gsc_eval]. f_equal. f_equal. apply weighted_ones. intros d Hd.
+  apply In_dnth in Hd as (i & Hi & <-). specialize (L i Hi).
+  assert (Ew : weights_or_nil (height c) w = repeat 1 (height c)) by (destruct W as [-> | ->]; reflexivity).
+  rewrite Ew. now apply nth_repeat_lt.
+Qed.
+Theorem root_weights_root_only c limit s : 0 < height c ->
+  gsc_eval (GEvalLimit limit (weights_or_nil (height c) WRoot)) (height c) (ms s)
+  = Some (limit <=? fold_right (fun d a => (if Nat.eqb (d_lvl d) 0 then d_evals d else 0) + a) 0 (demes (ms s))).
+Proof.
+  intros H. cbn [gsc_eval]. f_equal. f_equal. destruct (height c) as [|m]; [lia|]. unfold weights_or_nil. cbn [weights_of].
+  induction (demes (ms s)) as [|d r IH]; [reflexivity|]. cbn [fold_right]. rewrite IH. f_equal.
+  destruct (d_lvl d) as [|l]; cbn [nth Nat.eqb]; [lia|]. now rewrite nth_repeat_zero.
+Qed.
+
 (* ---------------------------------------------------------------- indices of a level / of a deme's children vs filtering the list *)
 Lemma map_dnth_ids_from p : forall l pre, map (fun i => dnth i (pre ++ l)) (ids_from (length pre) p l) = filter p l.
 Proof.
